@@ -297,6 +297,7 @@ func init() {
 		}
 		if fr.i.path != nil {
 			fr.i.path.events = append(fr.i.path.events, Event{Kind: "astfmt.Sprintf", Args: append([]value{args[1]}, args[2].([]value)...)})
+			fr.i.checkFormat(args[1], args[2].([]value))
 		}
 		return fr.i.symSprintf(args[1], rendered)
 	})
@@ -361,3 +362,40 @@ func (i *interpreter) funcByName(name string) *ssa.Function {
 }
 
 var _ = fmt.Sprintf
+
+// checkFormat is the C07 monitor at the message-formatting stub.
+func (i *interpreter) checkFormat(format value, args []value) {
+	f, ok := format.(string)
+	if !ok {
+		return
+	}
+	if strings.Contains(f, "‹") {
+		i.path.violation("assert", "pos: the format string of a diagnostic is built from analysed source text", nil, i.stack())
+		return
+	}
+	verbs := 0
+	for k := 0; k < len(f); k++ {
+		if f[k] != '%' {
+			continue
+		}
+		k++
+		for k < len(f) && strings.IndexByte("+-# 0123456789.", f[k]) >= 0 {
+			k++
+		}
+		if k < len(f) && f[k] != '%' {
+			verbs++
+		}
+	}
+	if verbs != len(args) {
+		i.path.violation("assert", fmt.Sprintf("pos: format %q has %d verbs for %d arguments", f, verbs, len(args)), nil, i.stack())
+	}
+	for _, a := range args {
+		if it, ok := a.(iface); ok {
+			if it.t == nil {
+				i.path.violation("assert", "pos: a nil value is formatted into a diagnostic", nil, i.stack())
+			} else if p, ok := it.v.(*value); ok && p == nil && strings.Contains(it.t.String(), "go/ast.") {
+				i.path.violation("assert", "pos: a nil syntax node is formatted into a diagnostic", nil, i.stack())
+			}
+		}
+	}
+}
